@@ -5,6 +5,7 @@
 package main
 
 import (
+	"time"
 	"strconv"
 	"strings"
 
@@ -80,6 +81,33 @@ func main() {
 		}
 		return strings.Join(tr, ";")
 	})
+	// src writers | consts : source-derived components (source.go)
+	r.Register("src", func(a []string) string {
+		if a[0] == "writers" {
+			return sourceWriters()
+		}
+		return sourceConsts()
+	})
+	// dl <probe> <offline> <purge> (seconds): does Config.NewSession accept these deadlines?
+	r.Register("dl", func(a []string) string {
+		d := func(s string) time.Duration { v, _ := strconv.ParseInt(s, 10, 64); return time.Duration(v) * time.Second }
+		if deadlinesAccepted(d(a[0]), d(a[1]), d(a[2])) {
+			return "ok"
+		}
+		return "err"
+	})
+	// t5q <cfg> <seed> <n>: a concurrent execution under the supported pattern (packet loop / purge / control API and
+	// views / channel reader); observation = invariant oracle + PrintTable at the quiescent point
+	r.Register("t5q", func(a []string) string {
+		cfg := tables.ParseCfg(a[0])
+		seed, _ := strconv.ParseUint(a[1], 10, 64)
+		n, _ := strconv.Atoi(a[2])
+		verdict, _ := tables.ConcurrentRun(cfg, seed, n)
+		if verdict != "inv=1|pt=ok" {
+			r.Viol("c05-invariant-broken-at-quiescence", verdict, "t5q "+strings.Join(a, " "))
+		}
+		return verdict
+	})
 	if r.Replayed() {
 		return
 	}
@@ -108,6 +136,29 @@ func main() {
 	nShort, nLong := 400, 500
 	if r.Thorough() {
 		nShort, nLong = 4000, 12000
+	}
+	grid := []int64{-1, 0, 1, 2, 119, 120, 121, 300, 1799, 1800, 1801, 3599, 3600, 3601, 86399, 86400, 86401}
+	for _, p := range grid {
+		for _, o := range grid {
+			for _, u := range []int64{-1, 0, 1, 60, 3660, 86400, 86401} {
+				r.Do("dl", strconv.FormatInt(p, 10), strconv.FormatInt(o, 10), strconv.FormatInt(u, 10))
+			}
+		}
+	}
+	r.Do("src", "writers")
+	r.Do("src", "consts")
+	// concurrent executions: Inv at the quiescent point
+	nQ := 150
+	if r.Thorough() {
+		nQ = 3000
+	}
+	for i := 0; i < nQ; i++ {
+		c := cfg
+		if i%3 == 1 {
+			c = dcfgs[rng.Intn(len(dcfgs))].Tok()
+		}
+		r.Do("t5q", c, strconv.FormatUint(rng.U64()>>1, 10), strconv.Itoa(10+rng.Intn(60)))
+		r.Stat("class.concurrent-quiescence", 1)
 	}
 	// large tables: many addresses on one MAC (above the 32 / 64 / 128 marks), many MACs
 	for _, n := range []int{40, 70, 130} {
